@@ -1784,11 +1784,12 @@ class QueryBuilder(Selectable, Term):  # type:ignore[misc]
         return " LIMIT {limit}".format(limit=self._limit.get_sql(ctx))
 
     def _set_sql(self, ctx: SqlContext) -> str:
-        field_ctx = ctx.copy(with_namespace=False)
+        # SET targets are never qualified (not even with the alias of an aliased update table: PostgreSQL and
+        # SQLite reject UPDATE t AS x SET x.a = ...)
         return " SET {set}".format(
             set=",".join(
                 "{field}={value}".format(
-                    field=field.get_sql(field_ctx),
+                    field=format_quotes(field.name, ctx.quote_char),
                     value=value.get_sql(ctx),
                 )
                 for field, value in self._updates
